@@ -5,13 +5,21 @@ namespace Pept
 namespace CondenseMass
 open Static AbsMass
 
-/-- the two mass calculators agree on the parameters (C03's subject), the call is `mass(x)` with its defaults
-(`ion_type='p'`, `isotope=0`, `use_isotope_on_mods=False`), every modification resolves, the ion-type adjustment plus the
-(neutral) charge carrier has the atoms of the two termini, and the supplied dicts have distinct keys -/
+/-- the environment in which every modification weighs what the COMPOSITION calculator gives it: the mass of its composition
+(`mod_comp`) or its plain shift (`_parse_mod_delta_mass_only`). The label path of `mass` never consults `E.mu`, so it
+computes in this environment whatever `E.mu` says. -/
+def envC (E : Env) : Env :=
+  { E with mu := fun v => match E.modRes v with | .comp c => chemMass E.em c | .delta d => d | .bad => 0 }
+
+/-- the TABLE part of the agreement of the two mass calculators (C03's subject), plus the defaults of the call `mass(x)`
+(`ion_type='p'`, `isotope=0`, `use_isotope_on_mods=False`): residue mass = mass of the residue composition, charge /
+ion-type term = mass of its composition, the ion-type adjustment plus the (neutral) charge carrier has the atoms of the two
+termini, the supplied dicts have distinct keys, every modification resolves, plain shifts are scaled by their multiplier.
+How far the tabulated modification masses `E.mu` are from the composition masses is NOT assumed here: it enters the bound as
+an explicit slack term. -/
 structure Coherent (E : Env) : Prop where
   res : ∀ x, E.res x = chemMass E.em (E.aaComp x)
   adj : E.adj = chemMass E.em E.ionAdj + chemMass E.em E.chargeComp
-  mods : ∀ m : Mod, modMass E m = chemMass E.em (compOf E m) + deltaOf E m
   term : ∀ x, compGet E.ionAdj x + compGet E.chargeComp x = compGet E.ntermComp x + compGet E.ctermComp x
   ndAa : ∀ x, NodupKeys (E.aaComp x)
   ndIon : NodupKeys E.ionAdj
@@ -22,6 +30,7 @@ structure Coherent (E : Env) : Prop where
   ionP : E.ionP = true
   iso0 : E.isotope = 0
   nobad : ∀ m : Mod, isBad E m = false
+  quirk : E.q.deltaIgnoresMult = false
 
 /-! ### modifications on the composition path -/
 
@@ -33,15 +42,24 @@ theorem chemMass_compScale (em : List Char → ℚ) (c : Comp) (k : ℚ) : chemM
     unfold compScale at *
     simp only [List.map_cons, chemMass, ih]; ring
 
+theorem modMass_envC (E : Env) (hq : E.q.deltaIgnoresMult = false) (m : Mod) :
+    modMass (envC E) m = chemMass E.em (compOf E m) + deltaOf E m := by
+  unfold modMass envC compOf deltaOf
+  simp only
+  cases E.modRes m.val with
+  | comp c => simp only [chemMass_compScale]; ring
+  | delta d => simp [hq, chemMass]
+  | bad => simp [chemMass]
+
 theorem compSum_mass (E : Env) (hc : Coherent E) (l : List Mod) (acc : Comp) :
-    chemMass E.em (compSum E acc l) + deltaSum E l = chemMass E.em acc + sumMods E l := by
+    chemMass E.em (compSum E acc l) + deltaSum E l = chemMass E.em acc + sumMods (envC E) l := by
   induction l generalizing acc with
   | nil => simp [compSum, deltaSum, sumMods]
   | cons m l ih =>
     simp only [compSum, deltaSum, sumMods]
     have := ih (compAdd acc (compOf E m))
     rw [chemMass_compAdd] at this
-    have hm := hc.mods m
+    have hm := modMass_envC E hc.quirk m
     linarith
 
 theorem sumMods_flatMap_intervals (E : Env) (l : List Interval) :
@@ -67,7 +85,7 @@ theorem optSum_getD (E : Env) (o : Option (List Mod)) : sumMods E (o.getD []) = 
 
 /-- the modification composition plus the plain shifts weigh what the fast path adds for the modifications -/
 theorem modComposition_mass (E : Env) (hc : Coherent E) (b : Annotation) :
-    chemMass E.em (modComposition E b) + deltaMass E b = modsTotal E b := by
+    chemMass E.em (modComposition E b) + deltaMass E b = modsTotal (envC E) b := by
   unfold modComposition deltaMass modsTotal
   simp only [hc.ionP, if_true, Bool.true_or, chemMass_compAdd1, hc.iso0]
   have h1 := compSum_mass E hc (b.unknown.getD []) []
@@ -84,9 +102,9 @@ theorem modComposition_mass (E : Env) (hc : Coherent E) (b : Annotation) :
   rw [sumMods_flatMap_intervals] at h2
   rw [sumMods_flatMap_internal] at h6
   rw [optSum_getD] at h1 h3 h4 h5
-  have e1 : sumIntervals E (b.intervals.getD []) = optIntervals E b.intervals := by
+  have e1 : sumIntervals (envC E) (b.intervals.getD []) = optIntervals (envC E) b.intervals := by
     cases b.intervals <;> simp [optIntervals, sumIntervals]
-  have e2 : sumInternal E (b.internal.getD []) = optInt E b.internal := by
+  have e2 : sumInternal (envC E) (b.internal.getD []) = optInt (envC E) b.internal := by
     cases b.internal <;> simp [optInt, sumInternal]
   rw [e1] at h2
   rw [e2] at h6
@@ -170,7 +188,7 @@ theorem chemMass_sequenceComposition (E : Env) (hc : Coherent E) (b : Annotation
 residues and termini + every modification at its ordinary weight -/
 theorem massLabel_coherent (E : Env) (hc : Coherent E) (b : Annotation) (L : List Mod) (lm : LabelMap)
     (hst : b.static = none) (hiso : b.isotope = some L) (hl : parseIsotopeMods E.knownLabel L = .ok lm) :
-    massLabel E b = .ok (sumRes E b.seq + E.adj + seqShift E lm b.seq + termShift E lm + modsTotal E b) := by
+    massLabel E b = .ok (sumRes E b.seq + E.adj + seqShift E lm b.seq + termShift E lm + modsTotal (envC E) b) := by
   have hcond : condenseStatic b = .ok b := by simp [condenseStatic, hst]
   have hbad : (allMods b).any (isBad E) = false := by
     rw [List.any_eq_false]; intro m _; simp [hc.nobad m]
@@ -196,7 +214,7 @@ def pieceSeq (c : Annotation) (j : ℕ) : List Char := (c.seq.take (j + 1)).drop
 theorem pieceDiff_label (E : Env) (hc : Coherent E) (c : Annotation) (j : ℕ) (m0 : Mod) (L : List Mod) (lm : LabelMap)
     (hst : c.static = none) (hiso : c.isotope = some (m0 :: L)) (hl : parseIsotopeMods E.knownLabel (m0 :: L) = .ok lm) :
     pieceDiff E { slice (core c) j (j + 1) with labile := none } =
-      .ok (seqShift E lm (pieceSeq c j) + termShift E lm + sumAt E c.internal j) := by
+      .ok (seqShift E lm (pieceSeq c j) + termShift E lm + sumAt (envC E) c.internal j) := by
   have hm : hasMods (core c) = true := by simp [hasMods, core, hiso]
   have hfilter : ∀ d : List (Int × List Mod),
       (d.filter fun q => decide ((Int.ofNat j) ≤ q.1) && decide (q.1 < Int.ofNat (j + 1))) =
@@ -216,7 +234,7 @@ theorem pieceDiff_label (E : Env) (hc : Coherent E) (c : Annotation) (j : ℕ) (
     | some d => simp only [Option.map_some, hfilter]
   rw [hpiece]
   have hmass : massOf E { seq := pieceSeq c j, isotope := some (m0 :: L), internal := pieceInternal c.internal j } =
-      .ok (sumRes E (pieceSeq c j) + E.adj + seqShift E lm (pieceSeq c j) + termShift E lm + sumAt E c.internal j) := by
+      .ok (sumRes E (pieceSeq c j) + E.adj + seqShift E lm (pieceSeq c j) + termShift E lm + sumAt (envC E) c.internal j) := by
     have := massLabel_coherent E hc
       { seq := pieceSeq c j, isotope := some (m0 :: L), internal := pieceInternal c.internal j } (m0 :: L) lm rfl rfl hl
     simp only [massOf, this]
@@ -229,12 +247,12 @@ theorem pieceDiff_label (E : Env) (hc : Coherent E) (c : Annotation) (j : ℕ) (
 
 /-- the significant part of the difference of piece `j`: label shift of its residue + modifications listed there -/
 def effL (E : Env) (lm : LabelMap) (c : Annotation) : List ℚ :=
-  (List.range c.seq.length).map fun j : ℕ => seqShift E lm (pieceSeq c j) + sumAt E c.internal (j : ℕ)
+  (List.range c.seq.length).map fun j : ℕ => seqShift E lm (pieceSeq c j) + sumAt (envC E) c.internal (j : ℕ)
 
 theorem pieceDiffs_label (E : Env) (hc : Coherent E) (c : Annotation) (m0 : Mod) (L : List Mod) (lm : LabelMap)
     (hst : c.static = none) (hiso : c.isotope = some (m0 :: L)) (hl : parseIsotopeMods E.knownLabel (m0 :: L) = .ok lm) :
     pieceDiffs E (splitPieces (core c)) = .ok ((List.range c.seq.length).map fun j : ℕ =>
-      seqShift E lm (pieceSeq c j) + termShift E lm + sumAt E c.internal (j : ℕ)) := by
+      seqShift E lm (pieceSeq c j) + termShift E lm + sumAt (envC E) c.internal (j : ℕ)) := by
   rw [splitPieces_core]
   exact pieceDiffs_map E _ _ _ (fun j _ => pieceDiff_label E hc c j m0 L lm hst hiso hl)
 
@@ -261,11 +279,11 @@ theorem sum_pieces (f : List Char → ℚ) (h0 : f [] = 0) (hadd : ∀ s t, f (s
     rw [this]
 
 theorem listSum_effL (E : Env) (lm : LabelMap) (c : Annotation) (hr : InRange c) :
-    listSum (effL E lm c) = seqShift E lm c.seq + optInt E c.internal := by
+    listSum (effL E lm c) = seqShift E lm c.seq + optInt (envC E) c.internal := by
   unfold effL
   rw [listSum_add_map]
   have h1 := sum_pieces (seqShift E lm) (seqShift_nil E lm) (seqShift_append E lm) c.seq
-  have h2 := listSum_sumAt_opt E c hr
+  have h2 := listSum_sumAt_opt (envC E) c hr
   unfold pieceSeq
   rw [h1, h2]
 
@@ -285,7 +303,7 @@ theorem shiftsOf_label (E : Env) (hc : Coherent E) (c : Annotation) (p : ℕ) (m
   have hd := pieceDiffs_label E hc c m0 L lm hst hiso hl
   have hs := pieceShifts_of_diffs E p (labelShift E.em E.ntermComp lm + labelShift E.em E.ctermComp lm) _ 0 _ hd
   have hmap : ((List.range c.seq.length).map fun j : ℕ =>
-        seqShift E lm (pieceSeq c j) + termShift E lm + sumAt E c.internal (j : ℕ)).map
+        seqShift E lm (pieceSeq c j) + termShift E lm + sumAt (envC E) c.internal (j : ℕ)).map
         (· - (labelShift E.em E.ntermComp lm + labelShift E.em E.ctermComp lm)) = effL E lm c := by
     unfold effL termShift
     rw [List.map_map]
@@ -335,14 +353,21 @@ def droppedL (E : Env) (lm : LabelMap) (c : Annotation) : ℕ :=
     (if labelShift E.em E.ntermComp lm ≠ 0 ∧ ¬ absQ (labelShift E.em E.ntermComp lm) > threshold then 1 else 0) +
     (if labelShift E.em E.ctermComp lm ≠ 0 ∧ ¬ absQ (labelShift E.em E.ctermComp lm) > threshold then 1 else 0)
 
-/-- **the bound of C18 with a label in force**, for a condensed annotation in a coherent environment -/
+/-- the modifications written outside residue positions are weighed by `E.mu` (`mod_mass`, the tabulated mass) when their
+sums are written, but by their composition when the labelled input is weighed: the total discrepancy -/
+def slack (E : Env) (c : Annotation) : ℚ :=
+  |optSum E c.nterm - optSum (envC E) c.nterm| + |optSum E c.cterm - optSum (envC E) c.cterm| +
+  |optSum E c.labile - optSum (envC E) c.labile| + |optSum E c.unknown - optSum (envC E) c.unknown| +
+  |optIntervals E c.intervals - optIntervals (envC E) c.intervals|
+
+/-- **the bound of C18 with a label in force**, for a condensed annotation in a table-coherent environment -/
 theorem outMass_err_label (E : Env) (hc : Coherent E) (c : Annotation) (p : ℕ) (s : Shifts) (m0 : Mod) (L : List Mod)
     (lm : LabelMap) (hst : c.static = none) (hiso : c.isotope = some (m0 :: L))
     (hl : parseIsotopeMods E.knownLabel (m0 :: L) = .ok lm) (hr : InRange c) (hn : ∀ i : ℤ, E.mu (.int i) = i)
     (hs : shiftsOf E c p = .ok s) :
     ∃ x, massOf E c = .ok x ∧
-      |outMass E c s p - x| ≤ (writtenL c s : ℚ) * halfUlp p + (droppedL E lm c : ℚ) * threshold := by
-  have hx : massOf E c = .ok (sumRes E c.seq + E.adj + seqShift E lm c.seq + termShift E lm + modsTotal E c) := by
+      |outMass E c s p - x| ≤ (writtenL c s : ℚ) * halfUlp p + (droppedL E lm c : ℚ) * threshold + slack E c := by
+  have hx : massOf E c = .ok (sumRes E c.seq + E.adj + seqShift E lm c.seq + termShift E lm + modsTotal (envC E) c) := by
     simp only [massOf, hiso]
     exact massLabel_coherent E hc c (m0 :: L) lm hst hiso hl
   refine ⟨_, hx, ?_⟩
@@ -360,10 +385,79 @@ theorem outMass_err_label (E : Env) (hc : Coherent E) (c : Annotation) (p : ℕ)
     cases hi : c.intervals with
     | none => simp [outIntervals, optIntervals, cntIntervalsO]
     | some l => simp only [Option.map_some, outIntervals, optIntervals, cntIntervalsO]; exact intervals_err E p hn l
+  have g2a := le_abs_self (optSum E c.nterm - optSum (envC E) c.nterm)
+  have g2b := neg_abs_le (optSum E c.nterm - optSum (envC E) c.nterm)
+  have g3a := le_abs_self (optSum E c.cterm - optSum (envC E) c.cterm)
+  have g3b := neg_abs_le (optSum E c.cterm - optSum (envC E) c.cterm)
+  have g4a := le_abs_self (optSum E c.labile - optSum (envC E) c.labile)
+  have g4b := neg_abs_le (optSum E c.labile - optSum (envC E) c.labile)
+  have g5a := le_abs_self (optSum E c.unknown - optSum (envC E) c.unknown)
+  have g5b := neg_abs_le (optSum E c.unknown - optSum (envC E) c.unknown)
+  have g6a := le_abs_self (optIntervals E c.intervals - optIntervals (envC E) c.intervals)
+  have g6b := neg_abs_le (optIntervals E c.intervals - optIntervals (envC E) c.intervals)
   rw [abs_le] at h1 h2 h3 h4 h5 h6 ⊢
-  simp only [outMass, writtenL, droppedL, modsTotal, termShift]
+  simp only [outMass, writtenL, droppedL, modsTotal, termShift, slack]
   push_cast at h2 h3 ⊢
   constructor <;> nlinarith [h1.1, h1.2, h2.1, h2.2, h3.1, h3.2, h4.1, h4.2, h5.1, h5.2, h6.1, h6.2]
+
+/-! ### the slack, bounded by a per-modification tolerance -/
+
+/-- the modifications written outside residue positions -/
+def outsideMods (c : Annotation) : List Mod :=
+  c.nterm.getD [] ++ c.cterm.getD [] ++ c.labile.getD [] ++ c.unknown.getD [] ++
+    (c.intervals.getD []).flatMap fun iv => iv.mods.getD []
+
+theorem sumMods_close (E : Env) (δ : ℚ) (l : List Mod) (h : ∀ m ∈ l, |modMass E m - modMass (envC E) m| ≤ δ) :
+    |sumMods E l - sumMods (envC E) l| ≤ δ * (l.length : ℚ) := by
+  induction l with
+  | nil => simp [sumMods]
+  | cons m l ih =>
+    have h1 := h m (by simp)
+    have h2 := ih (fun m' hm' => h m' (by simp [hm']))
+    simp only [sumMods, List.length_cons]
+    have e : modMass E m + sumMods E l - (modMass (envC E) m + sumMods (envC E) l) =
+        (modMass E m - modMass (envC E) m) + (sumMods E l - sumMods (envC E) l) := by ring
+    rw [e]
+    have := abs_add_le (modMass E m - modMass (envC E) m) (sumMods E l - sumMods (envC E) l)
+    push_cast; linarith
+
+theorem optSum_close (E : Env) (δ : ℚ) (o : Option (List Mod)) (h : ∀ m ∈ o.getD [], |modMass E m - modMass (envC E) m| ≤ δ) :
+    |optSum E o - optSum (envC E) o| ≤ δ * ((o.getD []).length : ℚ) := by
+  cases o with
+  | none => simp [optSum]
+  | some l => exact sumMods_close E δ l h
+
+theorem optIntervals_close (E : Env) (δ : ℚ) (o : Option (List Interval))
+    (h : ∀ m ∈ (o.getD []).flatMap (fun iv => iv.mods.getD []), |modMass E m - modMass (envC E) m| ≤ δ) :
+    |optIntervals E o - optIntervals (envC E) o| ≤ δ * (((o.getD []).flatMap fun iv => iv.mods.getD []).length : ℚ) := by
+  have := sumMods_close E δ _ h
+  rw [sumMods_flatMap_intervals, sumMods_flatMap_intervals] at this
+  cases o with
+  | none => simp [optIntervals]
+  | some l => simpa [optIntervals] using this
+
+/-- if every modification outside a residue position has a tabulated mass within `δ` of its composition mass (times the
+multiplier already inside `modMass`), the slack is at most `δ` per such modification -/
+theorem slack_le (E : Env) (c : Annotation) (δ : ℚ)
+    (h : ∀ m ∈ outsideMods c, |modMass E m - modMass (envC E) m| ≤ δ) :
+    slack E c ≤ δ * ((outsideMods c).length : ℚ) := by
+  unfold outsideMods at h
+  simp only [List.mem_append] at h
+  have h1 := optSum_close E δ c.nterm (fun m hm => h m (Or.inl (Or.inl (Or.inl (Or.inl hm)))))
+  have h2 := optSum_close E δ c.cterm (fun m hm => h m (Or.inl (Or.inl (Or.inl (Or.inr hm)))))
+  have h3 := optSum_close E δ c.labile (fun m hm => h m (Or.inl (Or.inl (Or.inr hm))))
+  have h4 := optSum_close E δ c.unknown (fun m hm => h m (Or.inl (Or.inr hm)))
+  have h5 := optIntervals_close E δ c.intervals (fun m hm => h m (Or.inr hm))
+  unfold slack outsideMods
+  simp only [List.length_append]
+  push_cast
+  nlinarith [h1, h2, h3, h4, h5]
+
+/-- when the tabulated masses ARE the composition masses there is no slack -/
+theorem slack_zero (E : Env) (c : Annotation) (h : ∀ m : Mod, modMass E m = modMass (envC E) m) : slack E c = 0 := by
+  have := slack_le E c 0 (fun m _ => by rw [h m]; simp)
+  have h0 : 0 ≤ slack E c := by unfold slack; positivity
+  linarith
 
 end CondenseMass
 end Pept
